@@ -961,6 +961,20 @@ def run_both(binary, driver, cases, tag, nproc=None, fuel=600000, drop_log=False
         rc1, real = run_real(binary, cf_, timeout=real_timeout)
         rc2, model = run_model(driver, cf_, fuel=fuel, inline=inline)
         rt = parse_traces(real)
+        # if the interpreter died in the middle of the batch, the cases after the culprit were never run: run them
+        rest = [(n, p) for n, p in shard if n not in rt]
+        rounds = 0
+        while rest and rounds < 8:
+            rounds += 1
+            cf2 = os.path.join(WORK, "%s-%d-r%d.cases" % (tag, idx, rounds))
+            with open(cf2, "w") as f:
+                for name, prog in rest:
+                    f.write(ser_case(name, prog))
+            _, real2 = run_real(binary, cf2, timeout=real_timeout)
+            rt2 = parse_traces(real2)
+            rt.update(rt2)
+            real += real2
+            rest = [(n, p) for n, p in rest if n not in rt2]
         mt = parse_traces(model)
         rm = {}
         if need_real_mon:
